@@ -13,7 +13,7 @@ theorem prune_keeps_newest (m : RevMap) (r : Right) (c : List (Bool × Sk)) (h :
   simp only [beq_self_eq_true, if_true, h, Option.map_some, Option.some.injEq]
   cases c with
   | nil => exact absurd rfl hne
-  | cons a as => simp
+  | cons a as => simp [RevMap.keepN]
 
 /-- pruning one right leaves every other right untouched -/
 theorem prune_other_untouched (m : RevMap) (r k : Right) (h : k ≠ r) : (m.keep r 1).lookup k = m.lookup k := by
